@@ -103,12 +103,15 @@ class Check:
 
 
 _CHECK = None
+_RUN_BEFORE = []        # indices (in cases()) of the cases this worker process ran before the current one
 
 
 def _worker(idx_case):
     idx, case = idx_case
     st = Stats()
     t0 = time.time()
+    earlier = list(_RUN_BEFORE)
+    _RUN_BEFORE.append(idx)
     try:
         vs = _CHECK.run_case(case, st) or []
         err = None
@@ -138,6 +141,10 @@ def _worker(idx_case):
             d["observed"] = jsonable(d["observed"])
             d["expected"] = jsonable(d["expected"])
             d["same_key_in_case"] = len(lst)
+            # state kept by the code under test at module / class level lives as long as the worker
+            # process: the cases this worker ran before are part of the history of the violation
+            d["worker_history"] = earlier[-400:]
+            d["origin_case"] = jsonable(case)
             out.append(d)
     return idx, st, out, err, time.time() - t0
 
